@@ -26,7 +26,7 @@ def budget(tier):
 
 
 def machines(tier):
-    return [("models", MM.make_machine({"C13"}, 3 if tier == "quick" else 4, neardeg=(0,) * 9 + (20,)), 1.0,
+    return [("models", MM.make_machine({"C13"}, 3 if tier == "quick" else 4, neardeg=(0,) * 8 + (20, -20, -30)), 1.0,
              12 if tier == "quick" else 30)]
 
 
